@@ -20,6 +20,7 @@ import (
 
 	"vharness/corpus"
 	"vharness/fontgen"
+	"vharness/indep"
 	"vharness/model"
 )
 
@@ -41,6 +42,12 @@ var hostilePrograms = map[string]string{
 	"rebind-true-false":               "systemdict /true false put systemdict /false true put systemdict /StandardEncoding 3 put",
 	"grow-stacks-and-fail":            "{ currentdict begin 1 } loop",
 	"exceed-budget":                   "{ } loop",
+}
+
+func init() {
+	// a program that fails inside an eexec section (the section is never closed)
+	cipher := indep.Encrypt(55665, append([]byte{'X', 'y', 0x80, 'z'}, []byte("/inside 1 def 1 (x) add /never 2 def\n")...))
+	hostilePrograms["fail-inside-eexec"] = "currentfile eexec\n" + fmt.Sprintf("%x", cipher) + "\n"
 }
 
 // probe: a workload whose digest must not depend on anything that ran before
